@@ -155,7 +155,7 @@ Fixpoint exec (e : env) (b : list instr) (s : state) : option state :=
 
 (* --- whole blocks with events ------------------------------------------------ *)
 Record event := { ev_k : N; ev_args : list Z; ev_mem : memory; ev_sto : storage; ev_env : env }.
-Record response := { r_outs : list Z; r_mem : memory; r_sto : storage; r_env : env }.
+Record response := { rs_outs : list Z; rs_mem : memory; rs_sto : storage; rs_env : env }.
 
 Record bstate := { b_env : env; b_state : state; b_trace : list event }.
 
@@ -169,9 +169,9 @@ Fixpoint run (x : event -> response) (b : list instr) (c : bstate) : option bsta
       let ev := {| ev_k := k; ev_args := firstn nin (stk s); ev_mem := mem s; ev_sto := sto s;
                    ev_env := b_env c |} in
       let rs := x ev in
-      run x r {| b_env := r_env rs;
-                 b_state := {| stk := firstn nout (r_outs rs ++ repeat 0 nout) ++ skipn nin (stk s);
-                               mem := r_mem rs; sto := r_sto rs |};
+      run x r {| b_env := rs_env rs;
+                 b_state := {| stk := firstn nout (rs_outs rs ++ repeat 0 nout) ++ skipn nin (stk s);
+                               mem := rs_mem rs; sto := rs_sto rs |};
                  b_trace := b_trace c ++ [ev] |}
   | i :: r =>
     match step (b_env c) i (b_state c) with
